@@ -554,13 +554,18 @@ pub fn payload_for_candidate(v: usize, e: usize, k: usize, seed: u64, wanted: &d
     payload_for_codewords(v, e, &data)
 }
 
-/// is (row, col) a module of a data codeword of (v, e)?
+/// is (row, col) a module of a data codeword of (v, e) whose bits a byte-mode payload of full capacity decides?
+/// Excluded: the first three codewords of block 0 (mode indicator and character count; after interleaving they sit at
+/// codeword positions 0, b and 2b for b blocks) and the last data codeword (its low nibble is the terminator).
 pub fn data_codeword_modules(v: usize, e: usize) -> Vec<bool> {
     let g = r::geo_of(v);
     let dc = r::data_codewords(v, e);
+    let (short, _, long) = r::block_layout(v, e);
+    let nb = short + long;
     let mut m = vec![false; g.n * g.n];
     for (i, &(y, x)) in g.zigzag.iter().enumerate() {
-        if i / 8 < dc && i >= 24 {
+        let c = i / 8;
+        if c < dc && c != 0 && c != nb && c != 2 * nb && c != dc - 1 {
             m[y * g.n + x] = true;
         }
     }
